@@ -347,6 +347,8 @@ func checkC02(c *Ctx) {
 	c02ErrCarry(c)
 	c02AnyMembers(c)
 	c02HandlerErrorConverted(c, "R-handler-error-converted")
+	c02AnswerStatusOK(c, "R-answer-status")
+	c03QueueAnswered(c) // a result or error reaches the caller only if its frame is handed to the session's queue
 	// listings are built per request: a filter working in place must not reach the registry's own slice (shared with C13)
 	c13Filters(c)
 	// a frame into which another writer's bytes were interleaved is not what the handler returned: the stream-integrity
@@ -721,4 +723,86 @@ func c02HandlerErrorConverted(c *Ctx, rule string) {
 			sprintf("%s returns the user handler's error as a Go error instead of converting it into a JSON-RPC error with the handler's message: the transports treat it differently (stdio answers \"Internal error\"), and the message does not reach the caller", fname(fn)))
 	}
 	c.R.Min(rule, 3)
+}
+
+// c02AnswerStatusOK (R-answer-status): a JSON-RPC answer — also one that carries an error object — travels in an HTTP
+// 200 body; the clients take any other status for a transport failure and never look at the body, so a handler's error
+// message would be replaced by "status code 500". In every server function that writes a marshalled message to the
+// ResponseWriter, each WriteHeader from which that write can be reached passes the constant 200.
+func c02AnswerStatusOK(c *Ctx, rule string) {
+	n := 0
+	fromMarshal := func(v ssa.Value) bool {
+		seen := map[ssa.Value]bool{}
+		var walk func(v ssa.Value, d int) bool
+		walk = func(v ssa.Value, d int) bool {
+			if v == nil || d > 8 || seen[v] {
+				return false
+			}
+			seen[v] = true
+			switch x := v.(type) {
+			case *ssa.Extract:
+				if call, ok := x.Tuple.(*ssa.Call); ok && x.Index == 0 && ir.CallName(call) == "encoding/json.Marshal" {
+					return true
+				}
+			case *ssa.Phi:
+				for _, e := range x.Edges {
+					if walk(e, d+1) {
+						return true
+					}
+				}
+			case *ssa.Slice:
+				return walk(x.X, d+1)
+			case *ssa.Call:
+				if b, ok := x.Call.Value.(*ssa.Builtin); ok && b.Name() == "append" {
+					return walk(x.Call.Args[0], d+1)
+				}
+			case *ssa.UnOp:
+				if u := unspill(x); u != ssa.Value(x) {
+					return walk(u, d+1)
+				}
+			}
+			return false
+		}
+		return walk(v, 0)
+	}
+	for _, fn := range c.P.LibFns {
+		if clientSide(c, fn) {
+			continue
+		}
+		var writes, headers []*ssa.Call
+		ir.EachInstr(fn, func(_ *ssa.BasicBlock, _ int, in ssa.Instruction) {
+			call, ok := in.(*ssa.Call)
+			if !ok || !call.Call.IsInvoke() || !isResponseWriter(call.Call.Value.Type()) {
+				return
+			}
+			switch call.Call.Method.Name() {
+			case "Write":
+				if len(call.Call.Args) == 1 && fromMarshal(call.Call.Args[0]) {
+					writes = append(writes, call)
+				}
+			case "WriteHeader":
+				headers = append(headers, call)
+			}
+		})
+		if len(writes) == 0 {
+			continue
+		}
+		for i, h := range headers {
+			reaches := false
+			for _, w := range writes {
+				if h.Block() == w.Block() || flow.BlocksReachableAvoiding(h.Block(), nil)[w.Block()] {
+					reaches = true
+				}
+			}
+			if !reaches {
+				continue
+			}
+			n++
+			code, isConst := ir.ConstInt(h.Call.Args[0])
+			c.R.Check(isConst && code == 200, rule, sprintf("status of the answer body written by %s #%d", fname(fn), i+1), c.Pos(h.Pos()),
+				"the marshalled message is sent with status 200",
+				sprintf("%s sends a marshalled JSON-RPC message with a status that is not the constant 200: the library's clients treat every other status as a transport failure and discard the body, so a handler's error (code, message) never reaches the caller", fname(fn)))
+		}
+	}
+	c.R.Min(rule, 1)
 }
